@@ -23,6 +23,20 @@ def parseOp (line : String) : Option Op :=
   | ["pickup", d, n, f] => do let n ← parseInt n; let f ← parseFault f; pure (.pickup d n f)
   | _ => none
 
+/-- one input op may stand for several model ops: `opick D N M -` = a pickup of N whose delivery fails FOLLOWED BY a
+    pickup of M (the second arrives while the first delivery is under way; removal and hand-out being one step, it can
+    only act after the first one has put its batch back) -/
+def parseOps (line : String) : Option (List Op) :=
+  match line.splitOn " " with
+  | ["opick", d, n, m, _] => do
+    let n ← parseInt n
+    let m ← parseInt m
+    pure [.pickup d n .send, .pickup d m .none]
+  | _ => (parseOp line).map fun o => [o]
+
+def parseAll (input : String) : Option (List Op) :=
+  (((input.splitOn ";").filter (· != "")).mapM parseOps).map List.flatten
+
 def showMsgs (ms : List Msg) : String := if ms.isEmpty then "-" else ",".intercalate (ms.map toString)
 
 def showOut : Out → String
@@ -36,7 +50,7 @@ def opDid : Op → Did
 def dids (ops : List Op) : List Did := sortStrings (ops.map opDid).eraseDups
 
 def handle (input : String) : String :=
-  match ((input.splitOn ";").filter (· != "")).mapM parseOp with
+  match parseAll input with
   | none => "bad-op"
   | some ops =>
     let r := Model.run Model.init ops
@@ -46,7 +60,7 @@ def handle (input : String) : String :=
     "|".intercalate (r.2.map showOut ++ [",".intercalate dump])
 
 def handleSpec (input : String) : String :=
-  match ((input.splitOn ";").filter (· != "")).mapM parseOp with
+  match parseAll input with
   | none => "bad-op"
   | some ops =>
     let r := run (fun _ => none) ops
